@@ -198,7 +198,8 @@ def _undo_probe(w, op, i):
         return
     before = snap.snapshot(m2, with_xyzr=False)
     w2 = World.__new__(World)
-    w2.__dict__.update({"shape": w.shape, "m": m2, "ref": w.ref.clone(), "violations": [], "stats": {}, "chain": snap.Chain(), "stopped": None})
+    w2.__dict__.update({"shape": w.shape, "m": m2, "ref": w.ref.clone(), "violations": [], "stats": {}, "chain": snap.Chain(), "stopped": None,
+                        "handles": {}, "epoch": 0, "io_epoch": 0})
     out = apply_op(w2, op, i, check=False)
     if out.get("outcome") != "accepted":
         return
